@@ -98,8 +98,15 @@ def role_ok(name, val, cx):
         return True, "array count"
     if name.startswith("vp9."):
         return (e is not None and name.split(".")[1] in L.field_names(e)), "vp9 config field"
-    if name in ("dops_version0", "dops_channels"):
-        return True, "from OpusConfig"
+    if name == "dops_version0":
+        return cint == 0, "dOps Version 0"
+    if name == "dops_channels":
+        x = e
+        while x is not None and x[0] == "cast":
+            x = x[2]
+        return (x is not None and x[0] == "field" and x[2] == "channels"), "OutputChannelCount = the configured channel count"
+    if name == "brand":
+        return (kind == "const" and all(0x20 <= c < 0x7F for c in val[1])), "a printable four-character code"
     return False, "unknown role " + name
 
 
@@ -225,6 +232,14 @@ def _check_fixed(run, rule, sp, cx, key):
         const_only = tail_segs is not None and all(sg[0] == "c" for sg in tail_segs)
         run.check(const_only and len(bs) >= 1 and bs[-1] == 0 and 0 not in bs[:-1], rule, key + " tail", "a NUL-terminated string after the %d-byte prefix" % off,
                   "the bytes after the fixed part are not one NUL-terminated string: %s" % (bs.hex() if const_only else ", ".join(L.show(s) for s in (tail_segs or []))[:120]))
+    elif tail == "brands":
+        bs = b"".join(sg[1] for sg in (tail_segs or []) if sg[0] == "c")
+        const_only = tail_segs is not None and all(sg[0] == "c" for sg in tail_segs)
+        major = B.field_value(view, 0, 4)
+        brands = [bs[i:i + 4] for i in range(0, len(bs), 4)]
+        good = const_only and len(bs) >= 4 and len(bs) % 4 == 0 and all(all(0x20 <= c < 0x7F for c in b_) for b_ in brands) and major[0] == "const" and major[1] in brands
+        run.check(good, rule, key + " tail", "compatible_brands: four-character codes including the major brand",
+                  "compatible_brands %s must be a non-empty list of printable four-character codes that contains the major brand %s (ISO/IEC 14496-12 4.3)" % ([b_.decode("latin1") for b_ in brands], major[1] if major[0] == "const" else "?"))
     elif tail == "boxes":
         run.check(tail_segs is not None and B.only_boxes(tail_segs), rule, key + " tail", "child boxes only after the %d-byte prefix" % off,
                   "stray bytes between the fixed prefix and the child boxes: %s" % (", ".join(L.show(s) for s in (tail_segs or []))[:200]))
@@ -441,6 +456,13 @@ def var_records(run, fc, box, key, it):
         ok = len(tail) == 5 and _len_prefixed(tail[0], tail[1]) and tail[2] == ("c", b"\x01") and _len_prefixed(tail[3], tail[4])
         names = [L.field_names(tail[1][1]) if len(tail) > 1 and tail[1][0] == "blob" else set(), L.field_names(tail[4][1]) if len(tail) > 4 and tail[4][0] == "blob" else set()]
         ok = ok and "sps" in names[0] and "pps" in names[1]
+        # ISO/IEC 14496-15 5.3.3.1.2: AVCProfileIndication / profile_compatibility / AVCLevelIndication are bytes 1, 2, 3 of the SPS NAL unit
+        spsv = tail[1][1] if len(tail) > 1 and tail[1][0] == "blob" else None
+        for k_, nm_ in ((1, "AVCProfileIndication"), (2, "profile_compatibility"), (3, "AVCLevelIndication")):
+            fv = B.field_value(view, k_, 1)
+            src = _indexed_byte(fv[1][1]) if fv[0] == "expr" and fv[1][0] == "u8" else None
+            run.check(src is not None and src[1] == k_ and spsv is not None and L.strip_ids(L.freeze(src[0])) == L.strip_ids(L.freeze(spsv)), "R3", key + " " + nm_, "= sps[%d]" % k_,
+                      "avcC byte %d (%s) is %s, the specification prescribes byte %d of the SPS that the record carries" % (k_, nm_, L.show(fv[1])[:100] if fv[0] == "expr" else fv, k_))
         run.check(ok, "R3", key + " parameter-sets", "len16(sps) sps 01 len16(pps) pps, each length taken from the bytes that follow",
                   "avcC parameter-set area is not `len(sps) sps 1 len(pps) pps` with matching length prefixes: %s" % ", ".join(L.show(s) for s in tail)[:300])
     elif fc == b"hvcC":
@@ -455,6 +477,21 @@ def var_records(run, fc, box, key, it):
         tail = _after(segs, 4)
         good = tail is not None and len(tail) == 1 and tail[0][0] == "blob" and "sequence_header" in " ".join(L.field_names(tail[0][1]))
         run.check(good, "R3", key + " configOBUs", "sequence header OBU appended verbatim", "av1C configOBUs is not the verbatim sequence header after a 4-byte header: %s" % (", ".join(L.show(s) for s in (tail or []))[:200]))
+
+
+def _indexed_byte(e):
+    """(sequence expression, constant index) if e is `seq[k]`, `if len(seq) >= n { seq[k] } else { default }` or `seq.get(k).copied().unwrap_or(default)`"""
+    while e[0] == "cast":
+        e = e[2]
+    if e[0] == "if" and e[2][0] in ("index", "mcall", "cast"):
+        return _indexed_byte(e[2])
+    if e[0] == "index" and e[2][0] == "lit":
+        return e[1], e[2][1]
+    if e[0] == "mcall" and e[1].split("::")[-1] in ("unwrap_or", "copied", "cloned", "unwrap_or_default"):
+        return _indexed_byte(e[2])
+    if e[0] == "mcall" and e[1].split("::")[-1] == "get" and len(e[3]) == 1 and e[3][0][0] == "lit":
+        return e[2], e[3][0][1]
+    return None
 
 
 def _thaw_shape(x):
